@@ -81,7 +81,7 @@ OUTSIDE = ("interleavings longer than the bound; HDF5 (h5py absent); registries 
            "process-wide state that survives from one explored path to the next other than unyt's lru_caches (the runner clears only those: on a tree with such a "
            "memo some counterexamples found symbolically may not replay, the ones caused inside one path do); in mixed operations the right operand is always a TIME "
            "symbol against a LENGTH symbol on the left (a cancelling same-dimension pair would put a symbolic scale into a sympy expression); mixed pairs of two watched "
-           "registries (default x source); kept products are observed only while neither operand's registry is edited (what an edit of an operand's registry does to "
+           "registries (default x source); conversion by string of a foreign-symbol product (and keeping it) only where the left symbol has the same scale term in the product's registry as in the left operand's; kept products are observed only while neither operand's registry is edited (what an edit of an operand's registry does to "
            "them is C12's subject); a shallow Unit.copy() of default-bound data shares the default registry by design (2219b71) and is not a route")
 
 ASSUMPTIONS = [
@@ -813,7 +813,9 @@ class World:
                         # converted again after every later step that edits neither operand's registry
                         G, target = r[1].units.registry, f"k{lsym}*{rsym}"
                         tl, tr = table_atom(G.lut, "k", lsym), table_atom(G.lut, "", rsym)
-                        if tl is not None and tr is not None:
+                        # (only where the left symbol has the SAME scale term in that registry as in the left operand's: otherwise unyt's
+                        # unit comparison inside the conversion is a symbolic near-tie question and forks every path)
+                        if tl is not None and tr is not None and eq(G.lut[lsym][0], Lg.lut[lsym][0]) is True:
                             c, want_c = call(lambda: r[1].to(target)), want / (tl[0] * tr[0])
                             req(ctx, f"{pair}/quantity-mul-foreign/converts-by-string", conj([c[0] == "ok", c[0] != "ok" or close(payload(c[1])[0], want_c)]),
                                 lambda c=c: self.info(to=target, got=Lazy(lambda: repr(c[1])[:160])))
